@@ -32,6 +32,10 @@ int_to_float = z3.Function('int_to_float', z3.IntSort(), sym.FloatS)
 regex_match = z3.Function('regex_match', z3.IntSort(), sym.StrS, z3.BoolSort())
 float_div = z3.Function('float_div', z3.IntSort(), z3.IntSort(), sym.FloatS)
 
+# time: whole-second instants; LOCAL_OFFSET is *uninterpreted*: any use of a host-time-zone dependent library
+# function puts it into the result, where no proof can get rid of it (C15)
+LOCAL_OFFSET = z3.Function('LOCAL_OFFSET', z3.IntSort(), z3.IntSort())        # seconds east of UTC the host applies at an instant
+float_of_seconds = z3.Function('float_of_seconds', z3.IntSort(), sym.FloatS)  # a float timestamp whose integer part is the argument
 REGEX_IDS = {}
 
 
@@ -155,7 +159,9 @@ class Library:
         if f is repr and sym.is_symbolic(args[0]):
             return '<repr>'
         if f in (list, tuple) and args and isinstance(args[0], (list, tuple)):
-            return f(args[0])
+            return st.allocated(f(args[0])) if f is list else f(args[0])
+        if f in (list, dict) and not args and not kwargs:
+            return st.allocated(f())
         if f is reversed and isinstance(args[0], (list, tuple)):
             return list(reversed(args[0]))
         # --- struct
@@ -170,6 +176,8 @@ class Library:
             return _struct.calcsize(args[0])
         recv = getattr(f, '__self__', None)
         name = getattr(f, '__name__', None)
+        if recv is datetime.datetime and name == 'fromtimestamp':
+            return self.dt_fromtimestamp(args, kwargs)
         if isinstance(recv, _struct.Struct):
             if name == 'pack':
                 return self.struct_pack(recv.format, args)
@@ -191,6 +199,8 @@ class Library:
             return self.dt_fromtimestamp(args, kwargs)
         if f is calendar.timegm:
             return self.cal_timegm(args[0])
+        if f is time.mktime:
+            return self.time_mktime(args[0])
         if f is decimal.Decimal:
             return self.dec_new(args)
         # --- everything else: only when fully concrete
@@ -289,6 +299,11 @@ class Library:
 
     def concrete_method(self, recv, name, args, kwargs, f):
         st = self.st
+        if isinstance(recv, (list, dict)) and id(recv) not in st.fresh_ids and \
+                name in ('append', 'extend', 'insert', 'pop', 'reverse', 'sort', 'clear', 'remove', 'update', 'setdefault',
+                         'popitem', '__setitem__', '__delitem__'):
+            st.writes.append((type(recv).__name__, 'module', name))
+            raise OutOfSubset('%s.%s on a pre-existing object (shared state)' % (type(recv).__name__, name))
         if isinstance(recv, list) and name in ('append', 'extend', 'insert', 'pop', 'reverse', 'sort', 'clear'):
             self.ip.note_write(recv, name)
             if name == 'sort' and sym.is_symbolic(recv):
@@ -600,6 +615,8 @@ class Library:
         return self.st.set_bits(r, rb, rs)
 
     def other_binop(self, op, a, b):
+        if op is ast.Div and isinstance(a, (SInt, SBool)) and isinstance(b, float) and b == int(b) and b > 0:
+            return SFloat(float_div(I(a), z3.IntVal(int(b))))       # A3: treated exactly
         if isinstance(a, SFloat) or isinstance(b, SFloat):
             raise OutOfSubset('float arithmetic')
         if isinstance(a, SOpaque) and a.kind == 'decimal' or isinstance(b, SOpaque) and b.kind == 'decimal' \
@@ -742,6 +759,10 @@ class Library:
 
     # ------------------------------------------------------------ floats / decimals / datetimes
     def float_to_int(self, v):
+        # A3: int(float_of_seconds(n)) == n (timestamps are exact to the whole second in the ranges of interest)
+        t = v.t
+        if z3.is_app(t) and t.decl().name() == 'float_of_seconds':
+            return mk_int(t.arg(0))
         raise OutOfSubset('int(float)')
 
     def dec_to_int(self, v):
@@ -777,20 +798,115 @@ class Library:
         raise OutOfSubset('Decimal arithmetic')
 
     def dt_fromtimestamp(self, args, kwargs):
+        from spec import wire
+        st = self.st
         if not sym.is_symbolic(args) and not sym.is_symbolic(list(kwargs.values())):
             try:
                 return datetime.datetime.fromtimestamp(*args, **kwargs)
             except Exception as exc:
                 raise Raised(type(exc), exc.args)
-        raise OutOfSubset('datetime.fromtimestamp(symbolic)')
+        ts = args[0]
+        tz = kwargs.get('tz', args[1] if len(args) > 1 else None)
+        millis = None
+        if isinstance(ts, SFloat) and z3.is_app(ts.t) and ts.t.decl().name() == 'float_div' and \
+                z3.is_int_value(ts.t.arg(1)) and ts.t.arg(1).as_long() == 1000:
+            millis = ts.t.arg(0)                     # ts / 1000.0 (A3: treated exactly)
+        elif not isinstance(ts, (SInt, int)):
+            raise OutOfSubset('fromtimestamp of %s' % type(ts).__name__)
+        key = millis if millis is not None else I(ts)
+        st.assume(z3.Implies(z3.And(key >= 0, key <= 253402300799), wire.dt_representable(key)))
+        if not st.branch(wire.dt_representable(key), 'fromtimestamp:representable'):
+            if st.branch(st.fresh_bool('overflow_error'), 'fromtimestamp:OverflowError-or-ValueError'):
+                raise Raised(OverflowError, ('timestamp out of range for platform time_t',))
+            raise Raised(ValueError, ('year is out of range',))
+        instant = wire.dt_of_millis(key) if millis is not None else wire.dt_of_seconds(key)
+        if tz is datetime.timezone.utc:
+            return SOpaque('datetime_aware', instant)
+        if tz is None:
+            # local wall clock: depends on the host time zone
+            return SOpaque('datetime_naive', wire.dt_local_wall(instant, LOCAL_OFFSET(key)))
+        raise OutOfSubset('fromtimestamp with a tz other than UTC')
 
     def cal_timegm(self, v):
+        from spec import wire
         if not sym.is_symbolic(v):
             try:
                 return calendar.timegm(v)
             except Exception as exc:
                 raise Raised(type(exc), exc.args)
+        if isinstance(v, SOpaque) and v.kind == 'struct_time':
+            return SInt(wire.dt_seconds(v.t))         # A5: the fields read as UTC
         raise OutOfSubset('calendar.timegm(symbolic)')
+
+    def time_mktime(self, v):
+        from spec import wire
+        if isinstance(v, SOpaque) and v.kind == 'struct_time':
+            s = wire.dt_seconds(v.t)
+            return SFloat(float_of_seconds(s - LOCAL_OFFSET(s)))   # the fields read in the host time zone
+        raise OutOfSubset('time.mktime')
+
+    # -- datetime values: attributes and methods
+    def attr_datetime_naive(self, obj, name, default, has_default):
+        if name == 'tzinfo':
+            return None
+        return SymMethod(obj, name)
+
+    def attr_datetime_aware(self, obj, name, default, has_default):
+        if name == 'tzinfo':
+            return SOpaque('tzinfo', obj.t, {'of': obj})
+        return SymMethod(obj, name)
+
+    def attr_tzinfo(self, obj, name, default, has_default):
+        return SymMethod(obj, name)
+
+    def meth_tzinfo(self, obj, name, args, kwargs):
+        if name == 'utcoffset':
+            return SOpaque('timedelta', obj.t)           # an aware datetime: never None
+        raise OutOfSubset('tzinfo.%s' % name)
+
+    def attr_struct_time(self, obj, name, default, has_default):
+        raise OutOfSubset('struct_time.%s' % name)
+
+    def meth_datetime_naive(self, obj, name, args, kwargs):
+        return self._dt_method(obj, name, args, kwargs, naive=True)
+
+    def meth_datetime_aware(self, obj, name, args, kwargs):
+        return self._dt_method(obj, name, args, kwargs, naive=False)
+
+    def _dt_method(self, obj, name, args, kwargs, naive):
+        from spec import wire
+        st = self.st
+        s = wire.dt_seconds(obj.t)
+        if name == 'replace' and not args and set(kwargs) == {'tzinfo'}:
+            tz = kwargs['tzinfo']
+            if tz is datetime.timezone.utc and naive:
+                r = SOpaque('datetime_aware', wire.dt_as_utc(obj.t))
+                st.assume(wire.dt_seconds(r.t) == s)     # the wall-clock fields read as UTC: same whole-second count
+                return r
+            if tz is datetime.timezone.utc and not naive:
+                raise OutOfSubset('replace(tzinfo=utc) on an aware datetime (changes the instant)')
+            raise OutOfSubset('datetime.replace(tzinfo=%r)' % (tz,))
+        if name == 'timestamp' and not args:
+            if naive:
+                return SFloat(float_of_seconds(s - LOCAL_OFFSET(s)))     # naive: interpreted in the host time zone
+            return SFloat(float_of_seconds(s))
+        if name == 'utcoffset' and not args:
+            return None if naive else SOpaque('timedelta', obj.t)
+        if name in ('timetuple',) and not args:
+            # wall-clock fields, tzinfo dropped: for an aware value the UTC offset is lost
+            r = SOpaque('struct_time', wire.dt_fields(obj.t))
+            if naive:
+                st.assume(wire.dt_seconds(r.t) == s)
+            else:
+                st.assume(wire.dt_seconds(r.t) == s + wire.dt_utcoffset(obj.t))
+            return r
+        if name == 'utctimetuple' and not args:
+            r = SOpaque('struct_time', wire.dt_utcfields(obj.t))
+            st.assume(wire.dt_seconds(r.t) == s)
+            return r
+        if name == 'astimezone' and not args:
+            return SOpaque('datetime_local', obj.t)      # same instant, host time zone attached
+        raise OutOfSubset('datetime.%s' % name)
 
 
 _PURE_CONCRETE = {
